@@ -180,6 +180,7 @@ func parseMessage(ctx context.Context, msgDesc *desc.MessageDescriptor, cache co
 	var err error
 	fields := msgDesc.GetFields()
 	md := &MessageDescriptor{
+		name:   msgDesc.GetName(),
 		baseId: FieldNumber(math.MaxInt32),
 		ids:    util.FieldIDMap{},
 		names:  util.FieldNameMap{},
